@@ -23,3 +23,24 @@ META["C13"] = dict(
     assumptions=["tolerances: Total 2n*eps*sum|x|, Mean 8n*eps*max|x|, Variance 16n*eps*(M*D+D^2), RMS/StdDev compared squared; Count/Min/Max exact",
                  "Variance/StdDev only constrained for count>=2, Min/Max/Mean/RMS for count>=1 (as the property states)"],
 )
+
+META["C18"] = dict(
+    level_text="Theorems (Lean): the bit-level NodeMarks model refines a set of naturals under every Mark/Unmark/Test/Next history; DotString round-trips through unescape; the SCC checker holdsSCC is sound w.r.t. path-defined mutual reachability; structural facts of the DFS/subgraph/transpose models. Correspondence: every traversal, SCC, SimplifyMulti, subgraph, transpose, Equal and Dot result of the real code is compared exactly with the model (SCC through the checker plus partition equality with the definitional partition) on exhaustive small digraphs, random multigraphs and structured graphs up to 100000 nodes.",
+    level_note="Trusted: Lean kernel; harness generators (sampling). Tarjan's algorithm itself has no Lean mirror: its outputs are validated per input by the proved-sound checker. Go map iteration and sort are not modelled.",
+    technique="Lean 4 refinement/soundness proofs + exact differential correspondence on exhaustive and random graphs",
+    rule="ops marks/pre/post/euler/rev/scc/simp/keep/remove/bigraph/equal/dots/dot. Exhaustive: all digraphs with self-loops on <=3 nodes (thorough <=4, plus a 1/8 sample of 5-node loop-free digraphs), every root. Random multigraphs <=60 nodes; paths/cycles/trees/layered DAGs/descending paths up to 20000 (thorough 100000) nodes; marks histories with indices around word and power-of-two boundaries. non-trivial = graph with >=3 nodes (history with >=3 ops; multigraph with a parallel edge for simp); distinct = distinct input line",
+    exhaustive_part="all digraphs with self-loops on <=3 (thorough <=4) nodes, every root, for pre/post/scc",
+    trusted_base=COMMON_TB,
+    assumptions=["graphs are valid (successor ids < number of nodes); Mark/Unmark indices non-negative (Test/Next take any integer)",
+                 "SubgraphKeep is called with distinct in-range nodes and edges among kept nodes (its documented precondition)"],
+)
+
+META["C19"] = dict(
+    level_text="Theorems (Lean): dominance by node deletion is equivalent to 'every root path passes through d'; the executable definitional specs idomSpec/dfSpec are what the property states. Correspondence: IDom, Dom and DomFrontier of the real code equal the definitional specs exactly (frontier as sets, with the root proviso) on exhaustive small digraphs and random reducible/irreducible graphs with unreachable parts; panics and time-outs are failures.",
+    level_note="Trusted: Lean kernel; harness generators (sampling). The Cooper-Harvey-Kennedy iteration has no Lean mirror: the algorithm is tied to the proved spec only by the correspondence (outputs validated per input).",
+    technique="Lean 4 definitional spec with characterisation theorems + exact differential correspondence",
+    rule="ops idom/df/dom on all digraphs with self-loops on <=3 nodes and every root (thorough: <=4 nodes, plus a 1/6 sample of 5-node loop-free digraphs; quick adds a 1/40 sample of 4-node graphs), random graphs 2..40 nodes: uniform multigraphs at 5 densities, structured flow graphs (reducible / with irreducible edges / with unreachable nodes feeding reachable joins), ids permuted. non-trivial = >=3 nodes (df: some non-empty frontier)",
+    exhaustive_part="all digraphs with self-loops on <=3 (thorough <=4) nodes, every root",
+    trusted_base=COMMON_TB,
+    assumptions=["graphs are valid; root < number of nodes", "root membership in frontiers compared only when the root has 0 or >=2 incoming edges (the property's proviso)"],
+)
